@@ -19,7 +19,7 @@ func init() {
 			"C01.2 every index/slice of wire bytes in the decoders and the packet entry is guarded by a length fact or by a recover that turns the panic into an error; " +
 			"C01.3 lock pairing for all mutex classes (no exit holding a lock, no unlock of an unheld lock); C01.4 no lock re-entry on any call path; " +
 			"C01.5 the packet-reader path (serve → processPacket → handlers, synchronous edges) performs no blocking operation besides the socket read and mutex acquisition; " +
-			"C01.6 census of explicit panic sites reachable from the packet path: each is discharged by a visible guard or listed as an assumed invariant; " +
+			"C01.6 census of explicit panic sites reachable from the packet path: each is discharged by a visible guard or listed as an assumed invariant (inherited by helpers extracted from the listed functions); integer divisions on that path have a divisor that is a non-zero constant, a field that only ever receives non-zero constants, or non-zero by a path fact; C01.9 nothing under the krpc Marshal* methods constructs an error, so MustMarshal in the unrecovered reply goroutine cannot be tripped by a field value taken from the wire; " +
 			"C01.8 bucketIndex (which panics on the root ID) is called only under id ≠ rootID / id ≠ own ID established in the caller or its callers; Server.addNode reaches table.addNode (whose refusal it turns into a panic under Server.mu) only with room in the bucket: Len < k, or the eviction loop stopped because its callback saw Len < k; " +
 			"C01.7 no library code performs a blocking operation (channel send/receive, blocking select, WaitGroup/limiter wait, sleep, socket I/O) while Server.mu is held in any mode, on any call path - the reader needs that lock for every datagram.",
 		NotDecided: "absence of all panics (integer arithmetic, allocation, third-party code such as bencode/immutable/log), liveness under load, scheduler fairness, behaviour of user hooks.",
